@@ -6,7 +6,12 @@
 import numpy as np
 
 from .base_classes import Shape3D
-from .utils import _hoomd_dict_mapping, _map_dict_keys, translate_inertia_tensor
+from .utils import (
+    _hoomd_dict_mapping,
+    _map_dict_keys,
+    _own_scalar,
+    translate_inertia_tensor,
+)
 
 
 class Sphere(Shape3D):
@@ -64,7 +69,7 @@ class Sphere(Shape3D):
     @radius.setter
     def radius(self, value):
         if value > 0:
-            self._radius = value
+            self._radius = _own_scalar(value)
         else:
             raise ValueError("Radius must be greater than zero.")
 
